@@ -66,10 +66,49 @@ def queries_for(points, cap=24):
     return qs
 
 
+_OWNER_OF_CALL = (
+    ("_blocks_", "C05"), ("byte_intervals_", "C06"), ("sections_on", "C06"),
+    ("sections_at", "C06"), ("nodes_on", "C06"), ("nodes_at", "C06"),
+    ("symbolic_expressions_at", "C13"), ("symbols_named", "C10"),
+    ("references", "C10"), ("out_edges", "C11"), ("in_edges", "C11"),
+    ("outgoing_edges", "C11"), ("incoming_edges", "C11"),
+    ("get_by_uuid", "C03"), ("contains_", "C19"), ("contents", "C19"),
+)
+
+
 def check_ir(g, ir, props=None, others=(), light=False):
     """others: IRs whose nodes must never be returned by this IR; light:
-    fewer query points (for use after every transition of an exploration)"""
+    fewer query points (for use after every transition of an exploration).
+    A lookup that RAISES is a finding of the property that owns the lookup
+    (the parts after it stay unjudged in this call)."""
     out = []
+    try:
+        _check_ir(g, ir, props, others, light, out)
+    except Exception as e:  # noqa
+        import traceback
+
+        tb = traceback.format_exc()
+        lines = [ln for ln in tb.splitlines() if "gtirb" in ln and " in " in ln]
+        text = " ".join(lines[-4:]) + " " + " ".join(
+            ln for ln in tb.splitlines() if "oracle.py" in ln)
+        owner = "C04"
+        # the innermost oracle line tells which accessor was being read
+        import re
+
+        src = [ln.strip() for ln in tb.splitlines()
+               if ln.startswith("    ") and not ln.strip().startswith("^")]
+        for needle, p_ in _OWNER_OF_CALL:
+            if any(needle in ln for ln in src[:6]):
+                owner = p_
+                break
+        if props is None or owner in props:
+            out.append(("%s/clone:lookup-raises:%s" % (owner,
+                                                       type(e).__name__),
+                        tb[-400:]))
+    return out
+
+
+def _check_ir(g, ir, props, others, light, out):
     cap_b, cap_i, cap_e = (6, 6, 4) if light else (24, 24, 12)
 
     def bad(sig, detail):
@@ -154,7 +193,7 @@ def check_ir(g, ir, props=None, others=(), light=False):
                         k.contains_address(b.address + off)) != inside:
                     bad("C19/clone:contains_address", "offset %d" % off)
     if not in_extent(t):
-        return out
+        return
     # (the interval that LISTS the block, whatever the block's own
     # back-pointer says: C04 judges the back-pointer)
     owner = {id(k): b for b in t["intervals"] for k in b.blocks}
@@ -314,4 +353,4 @@ def check_ir(g, ir, props=None, others=(), light=False):
             if set(nd.incoming_edges) != {e for e in edges
                                           if e.target is nd}:
                 bad("C11/clone:incoming_edges", "")
-    return out
+    return
